@@ -1,6 +1,6 @@
 ------------------------------ MODULE Dispatch ------------------------------
 (***************************************************************************)
-(* Message-type dispatch.  Six entry points route a message on the type    *)
+(* Message-type dispatch.  Seven entry points route a message on the type    *)
 (* announced in its application header through five hand-maintained        *)
 (* 30-way tables; the typed API checks the announced type against the      *)
 (* requested one.                                                          *)
@@ -19,26 +19,29 @@ CONSTANTS EmitCases
 TypesN == {101, 103, 104, 107, 110, 111, 112, 190, 191, 192, 196, 199, 200, 202, 204, 205, 210,
            290, 291, 292, 296, 299, 900, 910, 920, 935, 940, 941, 942, 950}
 Codes == 0..999
-EntryPoints == {"typed", "auto", "wrapper", "pluginParse", "pluginPublish", "pluginValidate"}
+\* "typedCollect" is the error-collecting twin of the typed API (SwiftParser::parse_with_errors::<T>): a second copy
+\* of the same steps in the code, the same function of (announced, requested) in the reference
+EntryPoints == {"typed", "typedCollect", "auto", "wrapper", "pluginParse", "pluginPublish", "pluginValidate"}
+Typed == {"typed", "typedCollect"}
 
 Outcome(ep, announced, requested) ==
-  IF ep = "typed"
+  IF ep \in Typed
   THEN IF announced = requested THEN "parsed" ELSE "mismatch"
   ELSE IF announced \in TypesN THEN "parsed" ELSE "unsupported"
 
 VARIABLES ep, announced, requested
 vars == <<ep, announced, requested>>
 Init == /\ ep \in EntryPoints /\ announced \in Codes
-        /\ requested \in (IF ep = "typed" THEN TypesN ELSE {0})
+        /\ requested \in (IF ep \in Typed THEN TypesN ELSE {0})
 Next == UNCHANGED vars
 Spec == Init /\ [][Next]_vars
 
 (* design-level statements *)
-AllAgree == \A e1, e2 \in EntryPoints \ {"typed"} : Outcome(e1, announced, 0) = Outcome(e2, announced, 0)
-OffDiagonalMismatch == (ep = "typed" /\ announced # requested) => Outcome(ep, announced, requested) = "mismatch"
-UnsupportedReported == (ep # "typed" /\ announced \notin TypesN) => Outcome(ep, announced, 0) = "unsupported"
+AllAgree == \A e1, e2 \in EntryPoints \ Typed : Outcome(e1, announced, 0) = Outcome(e2, announced, 0)
+OffDiagonalMismatch == (ep \in Typed /\ announced # requested) => Outcome(ep, announced, requested) = "mismatch"
+UnsupportedReported == (ep \notin Typed /\ announced \notin TypesN) => Outcome(ep, announced, 0) = "unsupported"
 NeverParsedAsOther == Outcome(ep, announced, requested) = "parsed" =>
-                         (announced \in TypesN /\ (ep = "typed" => requested = announced))
+                         (announced \in TypesN /\ (ep \in Typed => requested = announced))
 
 Emit == EmitCases => PrintT(ToJson([ep |-> ep, a |-> announced, r |-> requested,
                                     out |-> Outcome(ep, announced, requested)]))
